@@ -1958,6 +1958,10 @@ class OriginalFormatBox(Mp4Atom):
 @fourcc('mp4a')
 class MP4AudioSampleEntry(Mp4Atom):
     parse_children = True
+    DEFAULT_VALUES = {
+        'channelcount': 2,
+        'samplesize': 16,
+    }
 
     @classmethod
     def parse(clz, src, parent, **kwargs):
@@ -1965,7 +1969,10 @@ class MP4AudioSampleEntry(Mp4Atom):
         r = FieldReader(clz.classname(), src, rv)
         r.get(6, 'reserved')  # (8)[6] reserved
         r.read('H', "data_reference_index")
-        r.get(16, 'reserved')  # reserved 8,2,2,4
+        r.get(8, 'reserved')  # (32)[2] reserved
+        r.read('H', "channelcount")
+        r.read('H', "samplesize")
+        r.get(4, 'reserved')  # pre_defined (16), reserved (16)
         r.read('H', "timescale")
         r.get(2, 'reserved')  # (16) reserved
         # an ESDBox should follow on from this header
@@ -1976,8 +1983,8 @@ class MP4AudioSampleEntry(Mp4Atom):
         w.write(6, 'reserved', b'')
         w.write('H', 'data_reference_index')
         w.write(8, 'reserved_8', b'')
-        w.write('H', 'reserved_2', 2)
-        w.write('H', 'reserved_2', 16)
+        w.write('H', 'channelcount')
+        w.write('H', 'samplesize')
         w.write(4, 'reserved_4', b'')
         w.write('H', 'timescale')
         w.write(2, 'reserved', b'')
